@@ -14,7 +14,11 @@ import attr
 import common
 import initbuild as ib
 
-GROUPS = ["eq", "hash", "order", "repr", "setattr", "evolve", "asdict", "astuple", "copy", "deepcopy", "pickle"]
+GROUPS = ["eq", "hash", "order", "repr", "setattr", "evolve", "asdict", "astuple", "copy", "deepcopy", "pickle", "hashcopy"]
+
+
+class Box:
+    """an identity-hashed, identity-compared field value: its hash does not survive deepcopy / pickle"""
 
 
 def toggled(h, slots):
@@ -61,7 +65,7 @@ def make_case(h, call, fault, ops):
     skip = []
     oc = off["run"]["cfg"]
     if oc["cacheHash"] and oc["frozen"] and off["run"]["cacheIsSlot"]:
-        skip += ["hash", "copy", "deepcopy", "pickle"]
+        skip += ["hash", "copy", "deepcopy", "pickle", "hashcopy"]
     if h["classes"][-1].get("init") is False:
         # evolve goes through cls(...): without a generated __init__ that is whatever __init__ the class inherits
         # (written for another class's layout); out of scope, as in C12
@@ -203,6 +207,38 @@ def behaviour(h, ops):
             for proto in ops.get("protocols", [2]):
                 pk.append(_rt(a, lambda x: pickle.loads(pickle.dumps(x, proto))))
         out["pickle"] = pk
+
+        # HISTORY hash -> copy / deepcopy / pickle -> hash, with a field value whose hash does not survive the copy:
+        # a hash cached before the copy must not answer for the copy
+        def _hash_history(call, fn):
+            inst, obs = ib.construct(h, call, None, enabled)
+            if obs["exc"] is not None:
+                return "ctor-failed"
+            if any(v is None for _, v in _values(inst, names)):
+                return "unset-field"
+            if names:
+                try:
+                    object.__setattr__(inst, names[0], Box())
+                except BaseException:  # noqa: BLE001
+                    pass
+            ib.SELF[0] = None
+            h0 = _try(lambda: hash(inst))
+            r = _try(lambda: fn(inst))
+            if r[0] != "ok":
+                return [h0[0], r]
+            h1 = _try(lambda: hash(r[1]))
+            h2 = _try(lambda: hash(inst))
+            return [h0[0], "ok", h1[0], (h1[1] == h0[1]) if h0[0] == h1[0] == "ok" else None,
+                    (h2[1] == h0[1]) if h0[0] == h2[0] == "ok" else None]
+
+        hc = []
+        if not h["classes"][0].get("exc_base"):
+            for call in ops["calls"]:
+                hc.append(_hash_history(call, copy.copy))
+                hc.append(_hash_history(call, copy.deepcopy))
+                for proto in ops.get("protocols", [2]):
+                    hc.append(_hash_history(call, lambda x: pickle.loads(pickle.dumps(x, proto))))
+        out["hashcopy"] = hc
     finally:
         for k, v in saved.items():
             if v is None:
